@@ -2,6 +2,6 @@ SPECIFICATION Spec
 CONSTANTS
   Keys = {"rsa4096", "rsa3072p", "ed25519", "ecdsa"}
   MaxSteps = 6
-INVARIANTS NoVerifyWhenTampered AtMostOneKey
-PROPERTY PayloadStays DigestKept
+INVARIANTS NoVerifyWhenTampered AtMostOneKey SigDirtyOnlySigned
+PROPERTY PayloadStays DigestKept RebuiltOnly SigTamperLocal
 CHECK_DEADLOCK FALSE
